@@ -373,8 +373,9 @@ def write_evidence(ctx, agg, rule, violations, extra_cov=None, assumptions=None)
         "wall_s": round(wall, 3),
         "violations": violations,
     }
-    os.makedirs(os.path.join(ctx.verif, "evidence"), exist_ok=True)
-    path = os.path.join(ctx.verif, "evidence", f"{ctx.prop}.json")
+    evdir = os.path.join(ctx.verif, "evidence") if _SCALE == 1.0 else os.path.join(ctx.verif, "target", "scaled-evidence")
+    os.makedirs(evdir, exist_ok=True)
+    path = os.path.join(evdir, f"{ctx.prop}.json")
     with open(path, "w") as f:
         json.dump(ev, f, indent=1, sort_keys=True)
         f.write("\n")
